@@ -580,7 +580,9 @@ func (c06) Gen(rng *rand.Rand, tier string, idx int) Case {
 				e = g.boolean(depth)
 				isBool = true
 			}
-			if e.k != "col" && e.k != "lit" && e.k != "str" && e.k != "paren" {
+			// an expression field must hold an operator, a call or a CASE; the engine reads at most 100
+			// lexer tokens per SELECT field, so the printed text is kept well below that
+			if e.k != "col" && e.k != "lit" && e.k != "str" && e.k != "paren" && len(strings.Fields(e.render())) <= 60 {
 				break
 			}
 			isBool = false
